@@ -240,7 +240,7 @@ func TestVerif_C32(t *testing.T) {
 		return probs
 	}
 
-	bound := vh.Pick(r, 1, 2)
+	bound := vh.Pick(r, 1, 3)
 	seen := map[string]bool{}
 	for _, v := range variants {
 		v := v
